@@ -118,7 +118,7 @@ def build_hx(name, lib, extra_src=()):
     """Compile harness/<name>.cpp against the freshly built library."""
     src = os.path.join(ROOT, 'harness', name + '.cpp')
     h = hashlib.sha256()
-    for f in [src, os.path.join(ROOT, 'harness', 'hx_common.h')] + list(extra_src):
+    for f in [src] + sorted(os.path.join(ROOT, 'harness', x) for x in os.listdir(os.path.join(ROOT, 'harness')) if x.endswith('.h')) + list(extra_src):
         h.update(open(f, 'rb').read())
     out = os.path.join(lib['dir'], 'hx-%s-%s' % (name, h.hexdigest()[:12]))
     with open(os.path.join(CACHE, 'lock-hx-' + name), 'w') as lk:
